@@ -67,6 +67,17 @@ static void parser_case(Decoded &d, Src &s, bool keep_log, FILE *out) {
     bool smart = s.flag();
     used.call(d.a.array_root ? A_INIT_ARR : A_INIT_OBJ, s);
     run_script(used, s, d.prev_len, smart);
+    // counters that wrap: sometimes the object is reset very many times before it is reused (255..257, 65535..65537, 131072)
+    {
+        uint8_t ex = s.u8();
+        unsigned k = 0;
+        if (ex >= 0xfc) { static const unsigned kk[] = {65535, 65536, 65537, 131072}; k = kk[ex & 3]; }
+        else if (ex >= 0xf4) k = 254 + (ex & 3);
+        if (k && used.inited_ok) {
+            for (unsigned i = 0; i < k; i++) binson_parser_reset(used.pb.p);
+            stats().label(k > 1000 ? "prev:reset-65536-times-class" : "prev:reset-256-times-class");
+        }
+    }
     bool prev_err = used.pb.p->error_flags != BINSON_ERROR_NONE;
     bool prev_deep = used.inited_ok && binson_parser_get_depth(used.pb.p) > (d.a.array_root ? 1u : 0u);
     bool prev_rejected = !used.inited_ok;
